@@ -221,6 +221,8 @@ func (b *hangBody) Close() error { return nil }
 
 type prt struct {
 	script []int
+	then   []int // per provider: the kind of its second and later exchanges (-1 / absent: as the first)
+	seen   map[int]int
 	order  []string
 	reqs   int
 }
@@ -238,7 +240,15 @@ func (t *prt) RoundTrip(req *http.Request) (*http.Response, error) {
 		return &http.Response{StatusCode: code, Status: fmt.Sprintf("%d status", code), Body: body, Header: http.Header{}, Request: req}
 	}
 	vtime.Sleep(20 * time.Millisecond)
-	switch pKinds[t.script[idx]] {
+	kind := t.script[idx]
+	if t.seen == nil {
+		t.seen = map[int]int{}
+	}
+	t.seen[idx]++
+	if t.seen[idx] > 1 && idx < len(t.then) && t.then[idx] >= 0 {
+		kind = t.then[idx]
+	}
+	switch pKinds[kind] {
 	case "200-valid":
 		return mk(200, io.NopCloser(strings.NewReader("192.0.2.44\n"))), nil
 	case "4xx":
@@ -258,10 +268,32 @@ func (t *prt) RoundTrip(req *http.Request) (*http.Response, error) {
 
 type PScn struct {
 	Script []int `json:"script"`
+	// Then: per provider, the kind of its second and later exchanges (-1: as the first): a provider that first fails in a
+	// way that is retried and then stalls
+	Then []int `json:"then,omitempty"`
+}
+
+// twoStep: provider 1 (or 2, after a provider that refuses) first fails retriably - transport error, 5xx - and every later
+// exchange with it hangs before the headers / after them / in the middle of the body; the remaining providers answer.
+func twoStep() []PScn {
+	var out []PScn
+	for pos := 0; pos < 2; pos++ {
+		for _, first := range []int{3, 2} {
+			for _, later := range []int{4, 5, 6} {
+				sc := PScn{Script: []int{0, 0, 0, 0, 0}, Then: []int{-1, -1, -1, -1, -1}}
+				if pos == 1 {
+					sc.Script[0] = 1
+				}
+				sc.Script[pos], sc.Then[pos] = first, later
+				out = append(out, sc)
+			}
+		}
+	}
+	return out
 }
 
 func runP(sc *PScn) (*vsched.Exec, time.Duration, error) {
-	t := &prt{script: sc.Script, order: publicip.VerifCheckers()}
+	t := &prt{script: sc.Script, then: sc.Then, order: publicip.VerifCheckers()}
 	var took time.Duration
 	var err error
 	x := vsched.Run(vsched.Config{MaxVirtual: 10 * time.Minute}, nil, func() {
@@ -485,7 +517,7 @@ func init() {
 	F.Check = check
 	FR.Check = checkRT
 	count := func(tier string) int {
-		return F.Count(tier) + pCount(tier)/pChunk + len(rItems) + FR.Count(tier) + len(cItems(tier))
+		return F.Count(tier) + pCount(tier)/pChunk + 1 + len(rItems) + FR.Count(tier) + len(cItems(tier))
 	}
 	run := func(tier string, idx int, r *core.ScnResult) {
 		if idx < F.Count(tier) {
@@ -527,6 +559,28 @@ func init() {
 		} else {
 			idx -= np
 		}
+		if idx == 0 {
+			r.Nontrivial = true
+			for _, sc := range twoStep() {
+				sc := sc
+				x, took, _ := runP(&sc)
+				r.Evals++
+				r.Stats.Executions++
+				r.Stats.Steps += int64(x.Steps)
+				if key, d := checkP(&sc, x, took); key != "" {
+					name := ""
+					for p, k := range sc.Then {
+						if k >= 0 {
+							name = fmt.Sprintf("provider-%d-%s-then-%s", p+1, pKinds[sc.Script[p]], pKinds[k])
+						}
+					}
+					r.Fail(core.Failure{Key: "C08 public-ip/" + name + "/" + key, What: d, Scenario: core.JSON(map[string]any{"providers": sc})})
+				}
+				r.Outcome(fmt.Sprintf("public-ip/two-step/%s/%ds", x.Outcome, int(took.Seconds())))
+			}
+			return
+		}
+		idx--
 		if idx < len(rItems) {
 			sc := &rItems[idx]
 			x, took, info := runR(sc)
